@@ -4361,6 +4361,25 @@ where
     // group entry. A keyless entry such as `* tstr` inside a map has no
     // consumer for them: do not leak them into the next group entry.
     self.map_entry_candidates = None;
+    // The occurrence belongs to this entry only: it must not make the next
+    // group entry optional (`{ ? g, k: int }` requires k).
+    if entry.occur.is_some() {
+      self.state.occurrence = None;
+    }
+
+    Ok(())
+  }
+
+  fn visit_inline_group_entry(
+    &mut self,
+    occur: Option<&Occurrence<'a>>,
+    g: &Group<'a>,
+  ) -> visitor::Result<Error<T>> {
+    walk_inline_group_entry(self, occur, g)?;
+    // see visit_type_groupname_entry
+    if occur.is_some() {
+      self.state.occurrence = None;
+    }
 
     Ok(())
   }
